@@ -6,7 +6,7 @@ import ast
 
 from ..spec import CM, cell, returns, raises, unmodelled_text, pc_text
 from ..terms import (App, Const, Num, Sym, Tup, NAN, add, sub, mul, div, neg, same, show, to_poly, mk_num, Poly, subst,
-                     atoms_of, cmp0)
+                     atoms_of, cmp0, negate)
 from ..simp import mk_app, norm_fn
 
 LEVEL = "proof"
@@ -90,8 +90,10 @@ def eval_fn(ctx, chk, q, args, kwargs=None):
     outs = ctx.explore(lambda: ctx.ev.call(ctx.fn(q), list(args), dict(kwargs or {})), chk)
     rets = returns(outs)
     int_products(ctx, chk, q, outs)
-    if len(rets) != 1 or raises(outs):
-        return None, "%d return / %d raise paths" % (len(rets), len(raises(outs)))
+    # argument validation that refuses only alphas outside the documented open interval (0, 1) is not a path of the property
+    rs = [o for o in raises(outs) if not (o.pc and alpha_region_meets_unit(o.pc) is False)]
+    if len(rets) != 1 or rs:
+        return None, "%d return / %d raise paths" % (len(rets), len(rs))
     if rets[0].unmodelled:
         return None, "unmodelled: " + unmodelled_text(rets[0])
     return rets[0].value, None
@@ -120,6 +122,35 @@ def int_products(ctx, chk, q, outs):
     if not evs and (q, None) not in seen:
         seen.add((q, None))
         chk.hold("R04.7", q.split(".")[-1], "no product of degree >= 3 in the counts is evaluated in integer dtype", nontrivial=False)
+
+
+def alpha_region_meets_unit(pc):
+    """Do the path conditions (comparisons of alpha with constants, combined by and / or / not) admit an alpha in the open interval (0, 1)?
+    The conditions are piecewise constant between the constants they mention: they are evaluated exactly at every such breakpoint inside
+    (0, 1) and at one point of every gap between consecutive breakpoints.  True / False / None (a condition outside that vocabulary)."""
+    from fractions import Fraction
+    from ..numeval import evaluate, CannotEvaluate
+    pts = {Fraction(0), Fraction(1)}
+    for c, _t in pc:
+        for a_ in [c] + list(atoms_of(c)):
+            if isinstance(a_, App) and a_.fn in ("lt0", "le0", "eq0", "ne0") and a_.args:
+                p_ = to_poly(a_.args[0])
+                if p_ is None or any(m != () and not (len(m) == 1 and m[0] == (A, 1)) for m in p_.t):
+                    return None
+                k_, b_ = Fraction(p_.t.get(((A, 1),), 0)), Fraction(p_.t.get((), 0))
+                if k_ != 0:
+                    pts.add(-b_ / k_)
+            elif isinstance(a_, Sym) and a_ != A:
+                return None
+    inner = sorted(x for x in pts if 0 <= x <= 1)
+    samples = [x for x in inner if 0 < x < 1] + [(x + y) / 2 for x, y in zip(inner, inner[1:])]
+    try:
+        for x in samples:
+            if all(bool(evaluate(c, {A: x})) == t for c, t in pc):
+                return True
+    except CannotEvaluate:
+        return None
+    return False
 
 
 def devalue(v):
@@ -242,16 +273,21 @@ def run(ctx, chk, tier):
     q = "score_analysis.utils.binomial_ci"
     v, err = eval_fn(ctx, chk, q, [Cn, Nn], {"alpha": A})
     if v is None:
-        # one formula for every alpha in (0, 1): a path split (or a raise) that depends on alpha alone changes the interval for part of the range
+        # one formula for every alpha in (0, 1): a path split (or a raise) that depends on alpha alone must leave (0, 1) untouched - argument
+        # validation that refuses alpha <= 0 or alpha >= 1 is fine, a branch INSIDE the interval changes the result for part of the range
         outs_ = ctx.explore(lambda: ctx.ev.call(ctx.fn(q), [Cn, Nn], {"alpha": A}), chk)
         conds = [c for o in outs_ for c, _t in o.pc]
         only_alpha = bool(conds) and all(all((not isinstance(a, Sym)) or a == A for a in atoms_of(c)) and any(a == A for a in atoms_of(c)) for c in conds)
-        if only_alpha:
-            chk.violation("R04.4", q, "alpha-branch", "behaviour branches on alpha: %s (%s)" % (sorted({show(c, 80) for c in conds})[:3], err),
+        inside = [o for o in outs_ if alpha_region_meets_unit(o.pc) is not False]
+        undecided = [o for o in outs_ if alpha_region_meets_unit(o.pc) is None]
+        if only_alpha and not undecided and len(inside) == 1 and inside[0].kind == "return" and not inside[0].unmodelled:
+            v = inside[0].value      # the only path that documented alphas can take
+        elif only_alpha and not undecided:
+            chk.violation("R04.4", q, "alpha-branch", "behaviour branches on alpha inside (0, 1): %s (%s)" % (sorted({show(c, 80) for c in conds})[:3], err),
                           "the same formula z(alpha/2)*sqrt(p(1-p)/n) for every alpha in (0, 1)", ctx.where(q))
         else:
             chk.unknown("R04.4", "binomial_ci: " + err)
-    else:
+    if v is not None:
         exp = binomial_spec(Cn, Nn, A)
         dv, dl, dp = devalue(v)
         xv, xl, _xp = devalue(exp)
